@@ -170,6 +170,27 @@ CHECKS['C09'] = (
     'Same space as C10 plus submission retries and submit failures. A lifecycle automaton written from the statement is applied to every TaskState.reset of pooled proxies (retries justified by ground truth), outputs must be monotone at every funnel event and boundary, and succeeded|failed complete implies submitted and started complete.',
     A_NOTE + ' One known finding (a stale poll result moves a finished task back to running) is tolerated so that exploration continues behind it.')
 
+CHECKS['C04'] = (
+    'schedmc', 'model_checking', A_TECH, '6/C04',
+    'At every runahead release (TaskState.reset flipping is_runahead, including during start-up) the released point is compared with a limit recomputed from scratch from the graph term and the live pool points exactly as the statement says ((n+1)-th recurrence point or duration, largest future offset, stop-point cap, manual exemption), over 14 (quick) / 56 (thorough) workflows with 1-3 recurrences, limits P0..P4 and durations, future triggers, stop points and stop/trigger commands; terminals must be self-shutdown with no runahead-starved task and the full closure run.',
+    A_NOTE + ' All-success runs; no restarts.')
+CHECKS['C31'] = (
+    'schedmc', 'model_checking', A_TECH, '6/C31',
+    'Sequential tasks on 1-3 recurrences with success/failure outcomes and runahead P1-P3: in every state at most one instance of a sequential task is active (pool and environment); at each submission the term-derived previous instance really succeeded or precedes the start point; terminals are prefix-ordered with nothing after a failure.',
+    A_NOTE)
+CHECKS['C07'] = (
+    'schedmc', 'model_checking', A_TECH, '6/C07',
+    'All interleavings of job/command events and operator stop --cycle-point / trigger / set / resume commands (budget 1-2, every boundary) over graphs with several recurrences (P1, P2, +P1/P2, R1, R1/$), -P1/-P2/+P1 offsets incl. a future trigger at the final cycle, configured/optioned/commanded stop points, limited queues and paused starts: every pool addition must lie on the reference recurrence of the task within [ICP, FCP]; with a stop point in force no instance beyond it may enter job preparation unless trigger named it.',
+    A_NOTE + ' No retries, no restart; instances already in the submission pipeline when the stop point is set are exempt.')
+CHECKS['C46'] = (
+    'schedmc', 'model_checking', A_TECH, '6/C46',
+    'Graph shapes x every start cycle point after the ICP x every single start task and selected pairs (x trigger of each pre-start instance): no instance before START is prepared/submitted unless triggered by name; every dependency atom pointing before START is satisfied when its dependent enters the pool; at each submission the trigger expression (pre-START atoms true) holds over outputs really produced; at every terminal the run set equals the reference closure from START, or the closure seeded with exactly the start tasks.',
+    A_NOTE + ' START for start tasks = earliest start task cycle (documented); no --flow=new, no restart.')
+CHECKS['C45'] = (
+    'schedmc', 'model_checking', A_TECH, '6/C45',
+    'Absolute-trigger graphs (s[^], foo[^], foo[2], custom and :start outputs, AND with ordinary parents, two absolute parents) x all event interleavings x one stop --now --now + restart at every boundary: once the environment has really completed the absolute output, every pooled dependent instance - present, spawned later, restored by the restart or spawned after it - must have that atom satisfied; when all jobs are final every dependent ran.',
+    A_NOTE + ' One restart; jobs frozen while down.')
+
 NOT_BUILT_REASON = (
     'check not built yet in this session (designed in DESIGN.md section 6); '
     'no verdict is claimed')
